@@ -6,6 +6,7 @@
 package main
 
 import (
+	"go/types"
 	"runtime/debug"
 	"encoding/json"
 	"flag"
@@ -282,6 +283,46 @@ func runUnit(file, unit, filterS, pkg string, attrs map[string]string, smtdir st
 			if text {
 				printFuncText(fr)
 			}
+		}
+	}
+	// contracts on method sets (decided with go/types)
+	for _, tc := range typeContracts {
+		fr := FuncReport{Name: "type:" + tc.Type, Treatment: "full"}
+		var found types.Type
+		for _, p := range spkgs {
+			if p == nil {
+				continue
+			}
+			if obj := p.Pkg.Scope().Lookup(tc.Type); obj != nil {
+				if _, ok := obj.(*types.TypeName); ok {
+					found = obj.Type()
+				}
+			}
+		}
+		if found == nil {
+			fr.Obligations = append(fr.Obligations, ObReport{Name: "type_exists", Kind: "types", Status: "undischarged", Answer: "no such type", Solver: "go/types"})
+		} else {
+			ms := types.NewMethodSet(types.NewPointer(found))
+			allowed := map[string]bool{}
+			for _, a := range tc.Allowed {
+				allowed[a] = true
+			}
+			var extra []string
+			for i := 0; i < ms.Len(); i++ {
+				sel := ms.At(i)
+				if len(sel.Index()) > 1 && !allowed[sel.Obj().Name()] {
+					extra = append(extra, sel.Obj().Name())
+				}
+			}
+			ob := ObReport{Name: "promoted_methods_within_contract", Kind: "types", Status: "discharged", Answer: "unsat", Solver: "go/types"}
+			if len(extra) > 0 {
+				ob.Status, ob.Answer = "undischarged", "promoted onto the type but not in its contract: "+strings.Join(extra, ", ")
+			}
+			fr.Obligations = append(fr.Obligations, ob)
+		}
+		rep.Functions = append(rep.Functions, fr)
+		if text {
+			printFuncText(fr)
 		}
 	}
 	for name, c := range all {
